@@ -129,7 +129,9 @@ class Peer(object):
             for (t, kind, payload) in self.script:
                 if t > self.sched.now:
                     self.sched.time.sleep(t - self.sched.now)
-                if kind == "reply":
+                if kind == "reply_boxed":
+                    s.write(rc.msg(rc.MSG_REPLY, self.seq, payload))
+                elif kind == "reply":
                     is_exc, val = payload
                     if is_exc:
                         rec = (("builtins", "KeyError"), (val,), (("_remote_version", "5.0.1"),), "tb")
@@ -297,6 +299,52 @@ def model_run(case):
             r = ("ok", None)
         out.append((op, r, m.now, list(m.cblog), m.tie))
     return out
+
+
+def nested_request_expiry(ctx):
+    """'a synchronous request behaves as an asynchronous one carrying the connection's configured timeout' - every synchronous
+    request, also the one the connection issues itself while unboxing a reply (asking for the class of an object it has not seen
+    yet). The scripted peer answers the caller's request with such a reference and never answers the question about its class:
+    the wait must end with a time-out exactly the configured limit after that question was asked."""
+    import rpyc
+    from rpyc.core.channel import Channel
+    from rpyc.core import consts
+    for T, t_reply in ((3.0, 0.5), (1.0, 0.0), (5.0, 4.5)):
+        sched = vsched.Sched(seed=0, policy="scripted", max_steps=100000)
+        net = vnet.Net(waiter=vsched.SchedWaiter(sched))
+        conn = rpyc.VoidService()._connect(Channel(net.a), {"sync_request_timeout": T})
+        vsched.simulate_connection(conn, sched, "A")
+        ref = (rc.LABEL_REMOTE_REF, ("rv_unknown_module.NeverSeen", 4321, 8765))
+        peer = Peer(sched, net.b, [(t_reply, "reply_boxed", ref)], None)
+        log = []
+
+        def driver():
+            try:
+                v = conn.sync_request(consts.HANDLE_PING, "x")
+                log.append(("ok", type(v).__name__, sched.now))
+            except vsched.SchedAbort:
+                raise
+            except BaseException as e:
+                log.append(("exc", type(e).__name__, sched.now))
+            conn.close()
+        with vsched.patched_time(sched, spawn=False):
+            sched.spawn(driver, name="driver")
+            sched.spawn(peer.run, name="peer")
+            ok = sched.run(watchdog=40)
+        ctx.case(("nested-request-expiry", T, t_reply), nontrivial=True)
+        ctx.count("nested_request_expiries")
+        wit = dict(family="nested-request-expiry", timeout=T, reply_at=t_reply)
+        if not ok:
+            ctx.inconclusive("wall-clock watchdog in nested-request-expiry")
+            continue
+        if sched.deadlock or sched.aborting or not log:
+            ctx.violation("C15/nested-sync/never-expires", "the connection's own synchronous question about a class (limit %g s) was never answered and the wait never "
+                          "ended: %r" % (T, sched.deadlock or sched.abort_reason), wit)
+            continue
+        kind, name, when = log[0]
+        want = t_reply + T       # the caller's reply arrived in time; the question asked while unboxing it has the configured limit of its own
+        if kind != "exc" or name != "TimeoutError" or abs(when - want) > 1e-6:
+            ctx.violation("C15/nested-sync/expiry", "expected a time-out at t=%g, got %s %s at t=%g" % (want, kind, name, when), wit)
 
 
 def gen_case(rng, idx):
@@ -471,6 +519,8 @@ def concurrent_registration(ctx, seed, policy, p_switch, ncb):
 def run(ctx):
     from rv import suiterun
     suiterun.for_check(ctx, PROPERTY, ['results_completed'])
+    if ctx.shard[0] == 0:
+        nested_request_expiry(ctx)
     rng = ctx.rng
     for i in range(ctx.budget(500, 80000)):
         concurrent_registration(ctx, (ctx.seed, ctx.shard[0], i), "random" if i % 3 else "pct", rng.choice([0.1, 0.3, 0.6]), rng.choice([1, 2, 3]))
